@@ -501,4 +501,166 @@ theorem partsRev_length (r : List α) : (partsRev r).length = bell r.length := b
   funext j
   exact partsRev_count r j
 
+/-! ### combinations and subsets -/
+
+theorem combs_mem_iff (r : Nat) (l s : List α) : s ∈ combs r l ↔ s.Sublist l ∧ s.length = r := by
+  induction l generalizing r s with
+  | nil =>
+    cases r with
+    | zero => simp [combs]
+    | succ r => simp [combs]; intro h; simp [h]
+  | cons x xs ih =>
+    cases r with
+    | zero =>
+      simp only [combs, List.mem_singleton]
+      constructor
+      · rintro rfl; simp
+      · rintro ⟨_, h⟩; exact List.length_eq_zero_iff.mp h
+    | succ r =>
+      simp only [combs, List.mem_append, List.mem_map, ih]
+      constructor
+      · rintro (⟨t, ⟨ht, hlen⟩, rfl⟩ | ⟨hs, hlen⟩)
+        · exact ⟨List.cons_sublist_cons.mpr ht, by simp [hlen]⟩
+        · exact ⟨List.Sublist.cons _ hs, hlen⟩
+      · rintro ⟨hs, hlen⟩
+        rcases List.sublist_cons_iff.mp hs with h | ⟨t, rfl, ht⟩
+        · exact Or.inr ⟨h, hlen⟩
+        · exact Or.inl ⟨t, ⟨ht, by simpa using hlen⟩, rfl⟩
+
+theorem combs_nodup (r : Nat) (l : List α) (hl : l.Nodup) : (combs r l).Nodup := by
+  induction l generalizing r with
+  | nil => cases r <;> simp [combs]
+  | cons x xs ih =>
+    cases r with
+    | zero => simp [combs]
+    | succ r =>
+      have hx : x ∉ xs := (List.nodup_cons.mp hl).1
+      have hxs := (List.nodup_cons.mp hl).2
+      simp only [combs]
+      rw [List.nodup_append]
+      refine ⟨?_, ih (r + 1) hxs, ?_⟩
+      · exact List.Pairwise.map _ (fun a b hab h => hab (List.tail_eq_of_cons_eq h)) (ih r hxs)
+      · intro a ha b hb hab
+        obtain ⟨t, _, rfl⟩ := List.mem_map.mp ha
+        subst hab
+        have := ((combs_mem_iff (r + 1) xs (x :: t)).mp hb).1
+        exact hx (this.subset List.mem_cons_self)
+
+theorem combs_length_zero_of_lt (r : Nat) (l : List α) (h : l.length < r) : (combs r l).length = 0 := by
+  induction l generalizing r with
+  | nil => cases r with
+    | zero => simp at h
+    | succ r => simp [combs]
+  | cons x xs ih =>
+    cases r with
+    | zero => simp at h
+    | succ r =>
+      simp only [combs, List.length_append, List.length_map]
+      simp only [List.length_cons] at h
+      rw [ih r (by omega), ih (r + 1) (by omega)]
+
+theorem combs_length_choose (r : Nat) (l : List α) : (combs r l).length = choose l.length r := by
+  induction l generalizing r with
+  | nil => cases r <;> simp [combs, choose]
+  | cons x xs ih =>
+    cases r with
+    | zero => simp [combs, choose]
+    | succ r => simp [combs, choose, ih]
+
+theorem sumTo_shift (f : Nat → Nat) (m : Nat) : sumTo f (m + 1) = f 0 + sumTo (fun r => f (r + 1)) m := by
+  induction m with
+  | zero => simp [sumTo]
+  | succ m ih => rw [sumTo, ih]; simp only [sumTo]; omega
+
+theorem sumTo_congr (f g : Nat → Nat) (m : Nat) (h : ∀ r, r ≤ m → f r = g r) : sumTo f m = sumTo g m := by
+  induction m with
+  | zero => simp [sumTo, h 0]
+  | succ m ih => simp only [sumTo]; rw [ih (fun r hr => h r (by omega)), h (m + 1) (Nat.le_refl _)]
+
+/-- the total number of sub-lists is `2^n` -/
+theorem sumTo_combs (l : List α) : ∀ m, l.length ≤ m → sumTo (fun r => (combs r l).length) m = 2 ^ l.length := by
+  induction l with
+  | nil =>
+    intro m _
+    induction m with
+    | zero => simp [sumTo, combs]
+    | succ m ih => simp only [sumTo]; rw [ih (by simp)]; simp [combs]
+  | cons x xs ih =>
+    intro m hm
+    cases m with
+    | zero => simp at hm
+    | succ m =>
+      simp only [List.length_cons] at hm
+      rw [sumTo_shift]
+      have h1 : sumTo (fun r => (combs (r + 1) (x :: xs)).length) m =
+          sumTo (fun r => (combs r xs).length) m + sumTo (fun r => (combs (r + 1) xs).length) m := by
+        rw [← sumTo_add]
+        apply sumTo_congr
+        intro r _
+        simp [combs]
+      have h2 := sumTo_shift (fun r => (combs r xs).length) m
+      have h3 := ih m (by omega)
+      have h4 := ih (m + 1) (by omega)
+      rw [h1, h3]
+      rw [h4] at h2
+      simp only [combs, List.length_singleton] at h2 ⊢
+      rw [List.length_cons, Nat.pow_succ]
+      omega
+
+theorem sum_range_eq_sumTo (f : Nat → Nat) (n : Nat) : ((List.range (n + 1)).map f).sum = sumTo f n := by
+  induction n with
+  | zero => simp [sumTo]
+  | succ n ih => rw [List.range_succ, List.map_append, List.sum_append, ih]; simp [sumTo]
+
+/-! ### `subsets` on natural bounds -/
+
+theorem mem_subsetsL (l s : List α) (a b : Nat) :
+    s ∈ subsetsL l a b ↔ s.Sublist l ∧ a ≤ s.length ∧ s.length ≤ b := by
+  simp only [subsetsL, List.mem_flatMap, List.mem_range, combs_mem_iff]
+  constructor
+  · rintro ⟨i, hi, hs, hlen⟩; exact ⟨hs, by omega, by omega⟩
+  · rintro ⟨hs, h1, h2⟩; exact ⟨s.length - a, by omega, hs, by omega⟩
+
+theorem subsetsL_nodup (l : List α) (a b : Nat) (hl : l.Nodup) : (subsetsL l a b).Nodup := by
+  show List.Pairwise (· ≠ ·) _
+  simp only [subsetsL, List.pairwise_flatMap]
+  constructor
+  · intro i _; exact combs_nodup (a + i) l hl
+  · have : (List.range (b + 1 - a)).Pairwise (· ≠ ·) := List.nodup_range
+    refine this.imp ?_
+    intro i j hij s hs t ht hst
+    have h1 := ((combs_mem_iff _ _ _).mp hs).2
+    have h2 := ((combs_mem_iff _ _ _).mp ht).2
+    subst hst
+    omega
+
+/-- `subsets` with a non-negative `min_size` is `subsetsL` up to the resolved maximum. -/
+theorem subsets_core (l : List α) (a b : Nat) (mx : Int)
+    (h : (if mx < 0 then (l.length : Int) + mx + 1 else mx) = (b : Int)) :
+    subsets l (a : Int) mx = .ok (subsetsL l a b) := by
+  unfold subsets subsetsL intRange
+  simp only [h]
+  have h2 : ((b : Int) + 1 - (a : Int)).toNat = b + 1 - a := by omega
+  rw [h2]
+  have h3 : ((List.range (b + 1 - a)).map (fun (i : Nat) => (a : Int) + Int.ofNat i)).any (· < 0) = false := by
+    rw [List.any_eq_false]
+    intro x hx
+    obtain ⟨i, _, rfl⟩ := List.mem_map.mp hx
+    simp; omega
+  simp only [h3]
+  simp only [Bool.false_eq_true, if_false, List.flatMap_map]
+  congr 1
+
+theorem subsets_eq (l : List α) (a b : Nat) : subsets l (a : Int) (b : Int) = .ok (subsetsL l a b) :=
+  subsets_core l a b b (by have : ¬ ((b : Int) < 0) := by omega
+                           simp [this])
+
+/-- `max_size = -1` means "up to the full length" -/
+theorem subsets_neg_one (l : List α) (a : Nat) : subsets l (a : Int) (-1) = .ok (subsetsL l a l.length) :=
+  subsets_core l a l.length (-1) (by simp; omega)
+
+theorem nonEmptySubsets_eq (l : List α) : nonEmptySubsets l = .ok (subsetsL l 1 l.length) :=
+  subsets_neg_one l 1
+
+
 end Pharmpy.C18
